@@ -1,0 +1,44 @@
+//go:build verif
+
+// Contracts for the access decision (read as text by /verif's govc; comment-only).
+// The specification is taken from the property statement: a request is permitted
+// exactly when every requested object is covered, by type or by exact identity, by
+// some policy that grants the requested action.
+
+package rbac
+
+//@ spec func covers(o ontology.ID, x ontology.ID) bool =
+//@   (o.Type != "" && o.Key == "" && o.Type == x.Type) ||
+//@   (!(o.Type != "" && o.Key == "") && o.Type == x.Type && o.Key == x.Key)
+//@ spec func grants(p policy.Policy, a access.Action) bool =
+//@   exists k int :: 0 <= k && k < len(p.Actions) && p.Actions[k] == a
+//@ spec func policyCovers(p policy.Policy, a access.Action, x ontology.ID) bool =
+//@   grants(p, a) && (exists j int :: 0 <= j && j < len(p.Objects) && covers(p.Objects[j], x))
+//@ spec func objAllowed(ps []policy.Policy, a access.Action, x ontology.ID) bool =
+//@   exists i int :: 0 <= i && i < len(ps) && policyCovers(ps[i], a, x)
+//@ spec func allowed(req access.Request, ps []policy.Policy) bool =
+//@   forall i int :: 0 <= i && i < len(req.Objects) ==> objAllowed(ps, req.Action, req.Objects[i])
+
+//@ func allowRequest(req access.Request, policies []policy.Policy) (ok bool)
+//@   ensures ok == allowed(req, policies)
+//@   modifies nothing
+//@   loop 0 invariant forall i int :: 0 <= i && i < __ri(0) ==> objAllowed(policies, req.Action, req.Objects[i])
+//@   loop 1 invariant !found
+//@   loop 1 invariant forall i int :: 0 <= i && i < __ri(0) ==> !policyCovers(policies[i], req.Action, requestedObj)
+//@   loop 2 invariant !found
+//@   loop 2 invariant forall j int :: 0 <= j && j < __ri(0) ==> !covers(p.Objects[j], requestedObj)
+
+//@ # the policies attached to the roles currently assigned to a subject, in the
+//@ # transactional view of the enforcer: an ontology traversal plus a keyed retrieve (assumed)
+//@ spec func SpecPolicies(e *Enforcer, subject ontology.ID) []policy.Policy
+//@ spec func SpecRetrieveErr(e *Enforcer, subject ontology.ID) error
+//@ trusted func (e *Enforcer) retrievePolicies(ctx context.Context, subject ontology.ID) (ps []policy.Policy, err error)
+//@   ensures err == SpecRetrieveErr(e, subject)
+//@   ensures err == nil ==> __eq(ps, SpecPolicies(e, subject))
+//@   modifies nothing
+
+//@ func (e *Enforcer) Enforce(ctx context.Context, req access.Request) (err error)
+//@   ensures SpecRetrieveErr(e, req.Subject) != nil ==> err == SpecRetrieveErr(e, req.Subject)
+//@   ensures SpecRetrieveErr(e, req.Subject) == nil ==> ((err == nil) == allowed(req, SpecPolicies(e, req.Subject)))
+//@   ensures SpecRetrieveErr(e, req.Subject) == nil && err != nil ==> err == access.ErrDenied
+//@   modifies nothing
